@@ -512,6 +512,78 @@ func c09Enumerate(sh *evidence.Shard) {
 		})
 	}
 
+	// Part 5: the wildcard matcher on its own — every pattern and every name over a tiny alphabet
+	// (added after the independently seeded change C09-3: a segment-based matcher that lets the
+	// literal head and tail of a pattern overlap in a short name, "www.*.com" matching "www.com")
+	{
+		maxLen := 5
+		if th {
+			maxLen = 6
+		}
+		p5 := sh.Part("wildcard-grid", "enum")
+		p5.Alphabet = map[string]any{"pattern_chars": "a b . *", "name_chars": "a b . (no empty labels)", "lengths": fmt.Sprintf("1..%d (patterns with at least one *)", maxLen)}
+		p5.Bounds = map[string]any{"acl": "A(<pattern>); B(all)", "lookups": "every name, each with an empty decision cache, tcp/80"}
+		var names []string
+		var gen func(chars string, n int, cur []byte, out *[]string)
+		gen = func(chars string, n int, cur []byte, out *[]string) {
+			if len(cur) > 0 {
+				*out = append(*out, string(cur))
+			}
+			if len(cur) == n {
+				return
+			}
+			for i := 0; i < len(chars); i++ {
+				gen(chars, n, append(cur, chars[i]), out)
+			}
+		}
+		gen("ab.", maxLen, nil, &names)
+		var pats []string
+		gen("ab.*", maxLen, nil, &pats)
+		var pidx int64
+	grid:
+		for _, pat := range pats {
+			if !strings.Contains(pat, "*") || strings.HasSuffix(pat, "..") {
+				continue // (several trailing dots: normalisation of ill-formed patterns is not enumerated)
+			}
+			pidx++
+			if !env.Mine(pidx) {
+				continue
+			}
+			if pidx&63 == 0 && expired(p5, "wildcard grid", pidx) {
+				break
+			}
+			rules := []c09Rule{{Ob: "A", Addr: pat}, {Ob: "B", Addr: "all"}}
+			ref, rerr := c09RefCompileAll(rules)
+			impl, err := c09Compile(rules, 2)
+			if err != nil || rerr != nil {
+				p5.Count("patterns_not_accepted", 1)
+				continue
+			}
+			matched := 0
+			for _, name := range names {
+				if name[0] == '.' || name[len(name)-1] == '.' || strings.Contains(name, "..") {
+					continue // not a host name (empty label); normalisation of such strings is not the matcher's business
+				}
+				q := c09Query{Name: name, Proto: c09ProtoTCP, Port: 80}
+				impl.Cache.Purge()
+				got := c09Ask(impl, q)
+				want := c09WantAns(rules, c09RefEval(ref, q))
+				p5.Evaluations++
+				if want.ob == "A" {
+					matched++
+				}
+				if got != want {
+					if !c.violate(p5, "wildcard pattern decides differently from the reference", &c09Replay{Kind: "fresh", Rules: rules, CacheSize: 2, Query: q, Want: want.String(), Got: got.String()}) {
+						break grid
+					}
+					break
+				}
+			}
+			p5.Class(strings.Count(pat, "*"), len(pat), matched > 0, matched == len(names))
+			p5.Count("patterns", 1)
+		}
+	}
+
 	// Part 4 (thorough): fresh lookups, lists of length 3
 	if th {
 		p4 := sh.Part("fresh-len3", "enum")
@@ -531,7 +603,7 @@ func c09Enumerate(sh *evidence.Shard) {
 
 func c09ReplayOne(part string, raw json.RawMessage) (bool, bool, string) {
 	switch part {
-	case "fresh-len012", "fresh-len3", "cache-bfs", "prod-cache":
+	case "fresh-len012", "fresh-len3", "cache-bfs", "prod-cache", "wildcard-grid":
 	default:
 		return false, false, ""
 	}
